@@ -172,6 +172,54 @@ def lexer_token_domain(ctx, token):
     return values
 
 
+def _const_values(f, e, depth=0):
+    """the constants an expression can yield: a constant, a conditional expression over
+    such, a local assigned only such, or a call of a function of the unit that returns
+    only such (the operator's position computed by a helper).  None when not enumerable."""
+    e = cu.strip_casts(f, e)
+    if e is None or depth > 4:
+        return None
+    c = cu.const_of(e)
+    if c is not None:
+        return set([c])
+    if e['k'] == 'cond':
+        a, b = _const_values(f, f.kid(e, 1), depth + 1), _const_values(f, f.kid(e, 2), depth + 1)
+        return None if a is None or b is None else a | b
+    if e['k'] == 'call':
+        h = f.tu.functions.get(e.get('callee') or '')
+        if h is None or h is f:
+            return None
+        out = set()
+        for n in h.all_nodes():
+            if n['k'] == 'ret' and n.get('c'):
+                v = _const_values(h, h.kid(n, 0), depth + 1)
+                if v is None:
+                    return None
+                out |= v
+        return out or None
+    if e['k'] == 'ref' and e.get('dk') == 'local':
+        out = set()
+        for n in f.all_nodes():
+            src = None
+            if n['k'] == 'decl' and n['name'] == e['name'] and n.get('c'):
+                src = f.kid(n, 0)
+            elif n['k'] == 'bin' and n['op'] == '=':
+                l = cu.strip_casts(f, f.kid(n, 0))
+                if l is not None and l['k'] == 'ref' and l['name'] == e['name']:
+                    src = f.kid(n, 1)
+            elif n['k'] == 'bin' and n['op'].endswith('=') and n['op'] not in ('==', '!=', '<=', '>='):
+                l = cu.strip_casts(f, f.kid(n, 0))
+                if l is not None and l['k'] == 'ref' and l['name'] == e['name']:
+                    return None
+            if src is not None:
+                v = _const_values(f, src, depth + 1)
+                if v is None:
+                    return None
+                out |= v
+        return out or None
+    return None
+
+
 def operator_opcodes(ctx):
     """every opcode _yr_parser_operator_to_opcode can return"""
     prog = ctx.prog
@@ -195,9 +243,9 @@ def operator_opcodes(ctx):
         if n['k'] == 'bin' and n['op'] == '+=':
             l = f.kid(n, 0)
             if l is not None and l['k'] == 'ref' and l['name'] == OPV:
-                c = cu.const_of(f.kid(n, 1))
-                if c is not None:
-                    offs.add(c)
+                vs = _const_values(f, f.kid(n, 1))
+                ctx.require(vs is not None, 'the operator offset added at %s is not a set of constants' % f.loc(n))
+                offs |= vs
     ctx.require(len(bases) >= 3 and len(offs) >= 8, 'operator->opcode map not recognised')
     ranges = []
     for t in ('INT', 'DBL', 'STR'):
